@@ -5,6 +5,7 @@ import sys
 import common as c
 import c0809_lib as L
 import c09_contexts as X
+import c09_parser as PH
 
 PID = "C08"
 MANIFEST = {
@@ -13,13 +14,22 @@ MANIFEST = {
             "over Z; re-reading the emitted blank lines yields the same newlines; the positions statements get in the "
             "emitted text are a fixed point), comment re-attachment on the formatter's own list / record / do-block / "
             "statement layouts returns the same commented items (pair-level model of the parser's pending-comment "
-            "bookkeeping); model tied to the code by the FORMAT correspondence run on the source AND on the formatter's "
+            "bookkeeping), and that bookkeeping is linked to the parser model of C09 (coq/PegComments.v over the PEG model): "
+            "its list / record / do-block loops ARE attach / attach_do on the parsed inner pairs at every nesting depth "
+            "(C08_reparse_attach_matches_model), so the fixed-point theorems hold for what parse_program_c builds from the "
+            "Peg tree of a formatted text whenever that tree has the layout's pairs (C08_reparse_*_fixed_point), and the "
+            "second-pass theorems are stated with the re-parse as a Coq term (C08_reparse_second_pass_lib/_cli); "
+            "model tied to the code by the FORMAT correspondence run on the source AND on the formatter's "
             "own output (incl. statement positions as pest reports them), and format(format(p,w),w) == format(p,w) "
-            "searched on the implementation through the library loop and the real blots --format binary",
+            "searched on the implementation through the library loop and the real blots --format binary; REPARSE stream: "
+            "the formatter's outputs re-parsed by the parser model and by the real parser (commented-AST dump with comment "
+            "roles and statement lines), with the content hypothesis of the second-pass theorems checked on every program",
     "note": "trusted: Coq kernel + vm_compute; hand transcription of formatter.rs and of both driver loops (validated "
-            "by the FORMAT correspondence, incl. second pass); the pest parser is not modelled: that the formatter's "
-            "text re-parses to the same AST is property C07's, here it is only tested on the implementation (no "
-            "exclusion: any idempotence failure is a violation); no axioms",
+            "by the FORMAT correspondence, incl. second pass); the parser is modelled (coq/Peg.v + gen/Grammar.v + "
+            "coq/PegComments.v, compared with the real parser by the REPARSE / C09P streams) but that the text of a layout "
+            "lexes into the layout's pairs, and that the formatter's text re-parses to the same AST (property C07's), are "
+            "tested, not proved (no exclusion: any idempotence failure is a violation); gen/Grammar.v and gen/PrecTable.v "
+            "are regenerated before the proof step; no axioms",
     "design_ref": "DESIGN.md section 6 C08; notes/C08.md",
 }
 
@@ -106,6 +116,7 @@ def main(argv):
         return res.finish()
     if replay_path:
         return replay(h, cli, replay_path)
+    PH.regen_tables(h, res)      # C08_reparse_* are over gen/Grammar.v, gen/PrecTable.v
     c.proof_step(res, PID)
     clir = L.CliRunner(cli)
     try:
@@ -113,6 +124,7 @@ def main(argv):
         validated = L.correspondence(res, h, clir, rng, 250 if quick else 3000, PID, "c08")
         v2, reattach_viol = L.attach_correspondence(res, h, rng, 300 if quick else 4000, "c08a")
         validated += v2
+        validated += PH.reparse_stream(h, res, c.Rng(seed ^ 0x0C08B), tier, clir)
         for what, src, w, got, expect in reattach_viol[:3]:
             res.violation("re-parsing the formatter's output attaches a comment to a different item or in a "
                           "different role", {"kind": "impl-law", "source": src, "width": w, "driver": "lib",
